@@ -79,6 +79,24 @@ def adversarial(rng):
     return out
 
 
+def threshold_ladders(rng):
+    """A ladder of one-way counts 1..6 on attribute a: for any support threshold inside (1, 6] some value sits exactly at the
+    threshold and one neighbour pushes it across, so a threshold applied to true instead of noisy counts becomes visible."""
+    out = []
+    for mech, plist in (("MST", [{"epsilon": 10.0, "delta": 1e-3}, {"epsilon": 10.0, "delta": 1e-9}]),
+                        ("AdaGrid", [{"epsilon": 10.0, "delta": 1e-3, "targets": [], "split_strategy": None, "threshold": t} for t in (1.0, 3.0)])):
+        for p in plist:
+            recs = [[v, rng.randrange(2), rng.randrange(2)] for v in range(6) for _ in range(v + 1)]
+            forced = []
+            for v in range(6):
+                i = next(j for j, r in enumerate(recs) if r[0] == v)
+                forced.append(("remove#%d" % i, [list(r) for j, r in enumerate(recs) if j != i]))
+                forced.append(("add(%d, 0, 0)" % v, [list(r) for r in recs] + [[v, 0, 0]]))
+            out.append({"mech": mech, "params": p, "attrs": ["a", "b", "c"], "sizes": [6, 2, 2], "records": recs,
+                        "seed": rng.randrange(10 ** 6), "forced_neighbours": forced, "only_forced": True})
+    return out
+
+
 def design_params(sc):
     name, p, d = sc["mech"], sc["params"], len(sc["attrs"])
     t = {"mech": name, "d": d, "T": 1, "a10": 9, "n1": 1, "r": 2, "n3": 1, "f": [1, 1, 1], "fsum": 3}
@@ -180,7 +198,7 @@ def run_all(scs, nbr_limit, rng, procs=16):
     for sc in scs:
         adj = "replace" if (sc["mech"] == "MWEM" and sc["params"].get("bounded")) else "addremove"
         nb = M.neighbours(sc["records"], sc["sizes"], adj, rng, limit=None if sc.get("all_neighbours") else nbr_limit)
-        nb = list(sc.get("forced_neighbours", [])) + [x for x in nb if x[0] not in {f[0] for f in sc.get("forced_neighbours", [])}]
+        nb = list(sc.get("forced_neighbours", [])) + [x for x in nb if x[0] not in {f[0] for f in sc.get("forced_neighbours", [])} and not sc.get("only_forced")]
         jobs.append((sc, nb))
     with multiprocessing.get_context("fork").Pool(procs) as pool:
         results = pool.map(pair_job, jobs, chunksize=1)
